@@ -345,7 +345,7 @@ def find(s, needle, ops, reverse=False):
     s = lift(s)
     if not isinstance(needle, str):
         raise Unsupported('find with symbolic needle')
-    if not _needle_ok(s, needle):
+    if not _needle_ok(s, needle) and _may_touch_unknown(s, needle):
         raise Unsupported('find(%r) could match inside an unknown piece'
                           % needle)
     pp = _positions(s)
@@ -499,6 +499,11 @@ def _slice_prefix(s, start, stop):
     out = []
     off = 0
     pieces = list(s.pieces)
+    if start in (None, 0) and isinstance(stop, int) and stop < 0 and \
+            pieces and isinstance(pieces[-1], str) and \
+            len(pieces[-1]) >= -stop:
+        # s[:-k] with the cut inside the trailing literal
+        return simplify(SStr(pieces[:-1] + [pieces[-1][:stop]]))
     if stop is None and start is not None and start >= 0:
         k = 0
         while k < len(pieces):
@@ -575,7 +580,7 @@ def replace(s, old, new, ops):
         raise Unsupported('replace with symbolic arguments')
     if old == '' and new == '':
         return simplify(s)
-    if not _needle_ok(s, old):
+    if not _needle_ok(s, old) and _may_touch_unknown(s, old):
         raise Unsupported('replace(%r) could match inside an unknown piece'
                           % old)
     return simplify(SStr([p.replace(old, new) if isinstance(p, str) else p
@@ -622,7 +627,7 @@ def split(s, sep, ops):
         return split_ws(s, ops)
     if not isinstance(sep, str):
         raise Unsupported('split() without a literal separator')
-    if not _needle_ok(s, sep):
+    if not _needle_ok(s, sep) and _may_touch_unknown(s, sep):
         raise Unsupported('split(%r) could match inside an unknown piece'
                           % sep)
     parts = [[]]
@@ -840,6 +845,21 @@ def fmt_text(v, spec, interp):
     return SStr([FmtText(Sym(t), spec, length)])
 
 
+def plain_text(v, interp):
+    """'{}'.format(v) / str(v) of a symbolic real: the shortest repr of the
+    float, an uninterpreted function of the value (FmtText with spec '')"""
+    ctx = interp.ctx
+    from .values import z3real
+    t = z3.simplify(z3real(v))
+    key = ('fmtlen:', t.sexpr())
+    memo = ctx.atoms.table
+    if key not in memo:
+        c = ctx.fresh('fmtlen', 'int')
+        ctx.atoms.facts.append(c >= 3)
+        memo[key] = c
+    return SStr([FmtText(Sym(t), '', Sym(memo[key]))])
+
+
 def sci_text(v, interp):
     """'{: 2.8E}'.format(v): 15 characters for 1e-99 <= |v| < 1e100 or
     v == 0 (assumed range, stated by the contract); denotes d with
@@ -849,6 +869,16 @@ def sci_text(v, interp):
     if isinstance(v, (int, Fraction)) and not isinstance(v, bool):
         return format(float(v), ' 2.8E')
     t = z3real(v)
+    memo = ctx.__dict__.setdefault('scitext_memo', {})
+    mkey = z3.simplify(t).sexpr()
+    if mkey in memo and len(ctx.decisions) >= memo[mkey][1]:
+        return memo[mkey][0]
+    r = _sci_text(t, ctx)
+    memo[mkey] = (r, len(ctx.decisions))
+    return r
+
+
+def _sci_text(t, ctx):
     m = ctx.fresh('sci', 'real')
     eps = z3.RealVal('5/1000000000')
     if ctx.prove(t >= 0):
@@ -1021,8 +1051,32 @@ def format_(fmt, args, kwargs, interp):
         elif isinstance(val, Sym) and val.kind == 'real' and spec and \
                 (spec[0] in ' +' or spec[-1] in 'Ee'):
             out.append(fmt_text(val, spec, interp))
+        elif isinstance(val, Sym) and val.kind == 'real' and not spec and \
+                getattr(interp, 'plain_real_text', False):
+            # str(float): an unknown text that is a function of the value
+            out.append(plain_text(val, interp))
         elif isinstance(val, Sym) and val.kind == 'real' and spec:
             out.append(float_text(val, spec, interp))
+        elif isinstance(val, (list, tuple)) and not spec and \
+                getattr(interp, 'plain_real_text', False) and \
+                all(isinstance(x, (Sym, Fraction, int, float, str)) and
+                    not isinstance(x, bool) for x in val):
+            # str(list): '[' + ', '.join(repr(x)) + ']'
+            parts = ['[' if isinstance(val, list) else '(']
+            for k, x in enumerate(val):
+                if k:
+                    parts.append(', ')
+                if isinstance(x, Sym) and x.kind == 'real':
+                    parts.append(plain_text(x, interp))
+                elif isinstance(x, Sym):
+                    return None
+                elif isinstance(x, Fraction):
+                    parts.append(repr(float(x)))
+                else:
+                    parts.append(repr(x))
+            parts.append(']' if isinstance(val, list) else
+                         (',)' if len(val) == 1 else ')'))
+            out.append(SStr(parts))
         elif isinstance(val, bool) or val is None:
             out.append(format(val, spec))
         elif isinstance(val, int):
